@@ -78,9 +78,9 @@ func c03Statements(seed int64, thorough bool) []stmt {
 	add("vt", []int{5, 6, 5, 6, 7}, 12, 13, 12, 13, 10)
 	add("multiproof", []int{77, 77, 78, 200}, 8, 10, 11, 12)
 	// more openings than 1024 pending transcript bytes (n >= 11) and more than the worker count
-	sz := []int{11, 17}
+	sz := []int{11, 17, 1025} // 1025: one more than an internal chunk of 1024 powers of the challenge
 	if thorough {
-		sz = append(sz, 12, 16, 33, 40)
+		sz = append(sz, 12, 16, 33, 40, 257, 2049)
 	}
 	for _, n := range sz {
 		s := stmt{label: "vt"}
